@@ -15,7 +15,7 @@ META = {
     'text': 'Breadth-first search over histories of wrapped calls on the production wrapper; states are digests of every writable symbol of the library plus '
             'process attributes; every (reachable state, call letter) pair is executed; when the state set closes the result holds for histories of any length '
             'over the alphabet. All ordered pairs (and triples of a reduced alphabet in thorough) are executed in addition, as a guard against state outside the digest.',
-    'note': 'Alphabet: execv/execve x 3 paths x 9 argv shapes (NULL, argv[0]==NULL, empty strings, lengths limit-1/limit/limit+1/10x, 3000 entries) x 2 data-source limits, both builds. '
+    'note': 'Alphabet: execv/execve x 3 paths x 10 argv shapes (NULL, argv[0]==NULL, empty strings, lengths limit-1/limit/limit+1/10x, 3000 entries) x 2 data-source limits, both builds. '
             'How long a truncated prefix may be is C05\'s business; here any prefix is accepted.',
 }
 
@@ -26,6 +26,8 @@ def letters(dsmax):
         'NULL': None, 'a0NULL': [], 'a': [b'a'], 'xyz': [b'x', b'y z', b''],
         'lim-1': [b'k' * 100, b'm' * (dsmax - 1 - 101)], 'lim': [b'k' * 100, b'm' * (dsmax - 101)], 'lim+1': [b'k' * 100, b'm' * (dsmax + 1 - 101)],
         'x10': [b'q' * dsmax] * 10, 'n3000': [b'ab'] * 3000,
+        # many empty strings then a real argument, total just below the limit (one byte per argument: separator only)
+        'empties': [b''] * (dsmax - 10) + [b'END'],
     }
     L = {}
     for fn in ('execv', 'execve'):
@@ -36,6 +38,8 @@ def letters(dsmax):
                     av = None
                 elif ak == 'n3000':
                     av = [(3000, H.hx(b'ab'))]
+                elif ak == 'empties':
+                    av = [(dsmax - 10, 'h'), H.hx(b'END')]
                 else:
                     av = [H.hx(x) for x in a]
                 L[name] = (fn, p, a, 'call %s %s %s %s -1 2' % (fn, H.hx(p), H.vec(av), '[h413d31]' if fn == 'execve' else 'N'))
@@ -142,5 +146,5 @@ def run(ck):
                        'truncated values: any prefix accepted (C05 decides the length)']
     ck.coverage(states=total_states, transitions=total_trans, traces_validated_against_impl=total_trans, evaluations=total_trans,
                 distinct_nontrivial=len(outcomes), state_set_closed=closed_all,
-                rule='BFS over histories of the 54-letter call alphabet per (build, limit), de-duplicated on the real-state digest, plus ordered pairs; distinct = (build, limit, letter, record)',
+                rule='BFS over histories of the 60-letter call alphabet per (build, limit), de-duplicated on the real-state digest, plus ordered pairs; distinct = (build, limit, letter, record)',
                 samples=samples or [{'note': 'none'}])
